@@ -265,6 +265,12 @@ Definition lp_receive (reasm : bool) (s : list (N * list bytes)) (LP : lpf) (fra
     end
   end.
 
+(* OBLIGATION (buffer ownership).  `frame`, the stored fragments and the delivered d_raw are byte values here.  In the Go code
+   the frame is a slice of the transport's receive buffer, which the caller reuses as soon as handleIncomingFrame returns
+   (readTlvStream compacts and refills it; a datagram buffer is overwritten by the next datagram): handleIncomingFrame must
+   therefore copy whatever outlives the call (it copies the whole frame first).  The value semantics of this model is sound only
+   under that obligation; the harness checks it on every run by delivering all frames through ONE reused buffer and comparing
+   what the forwarding threads hold after the buffer has been reused (trace line HC, oracle `held-packet-changed`). *)
 (* handleIncomingFrame on the decoded frame `dec` (= spec.ReadPacket of the frame bytes);
    inner = spec.ReadPacket applied to the (reassembled) payload *)
 Definition handle_frame (c : rcfg) (inner : bytes -> dpkt) (st : rstate) (dec : dpkt) (frame : bytes) : hres :=
